@@ -8,7 +8,9 @@
     bytes        lower-case hex, "-" for the empty string
     numbers      Go's `%X` of a *big.Int: upper-case hex, "0", "-5", "<nil>"
     s-expression <nil> | () | (A . B) | s:<hex> | y:<hex> | #<number>#
-    non-terminating runs: STACKOVERFLOW (fatal "stack overflow"), HANG (endless loop)
+    OUT-OF-FUEL  a model loop ran out of fuel (never happens: Proofs/KeyFile.lean); the harness
+                 prints HANG / STACKOVERFLOW when the implementation does not come back
+    ser=         Serialize() of an imported key; "n/a" when x is nil (Serialize would dereference it)
 -/
 import Otr.DriverPure
 import Otr.KeyFile
@@ -34,8 +36,7 @@ def restStr (r : Rd) : String := hx r.unreadByte.inp
 
 def runStr {α} (f : α → String) : Run α → String
   | .done a => f a
-  | .overflow => "STACKOVERFLOW"
-  | .hang => "HANG"
+  | .outOfFuel => "OUT-OF-FUEL"
 
 def keyFieldsStr (k : DsaPriv) : String :=
   s!"p={numStr k.p} q={numStr k.q} g={numStr k.g} y={numStr k.y} x={numStr k.x}"
@@ -43,7 +44,7 @@ def keyFieldsStr (k : DsaPriv) : String :=
 def accountStr (a : Account) : String :=
   let ser := match a.key.serialize with
     | .ok b => hx b
-    | .panic _ => "PANIC"
+    | .panic _ => "n/a"
   let fp := match a.key.fingerprint Crypto.real with
     | some b => hx b
     | none => "nil"
@@ -71,12 +72,12 @@ def keyFileOp (line : String) : Option String :=
   match splitArgs line with
   | ["sexpread", h] => (unhx h).map fun b =>
       runStr (fun (((v, e), r) : (Sexp × Bool) × Rd) => s!"{sexpStr v} end={boolStr e} rest={restStr r}")
-        (readValue b.length ⟨b, none⟩)
+        (readValue ⟨b, none⟩)
   | ["sexplist", h] => (unhx h).map fun b =>
-      runStr (fun ((v, r) : Sexp × Rd) => s!"{sexpStr v} rest={restStr r}") (readList b.length ⟨b, none⟩)
+      runStr (fun ((v, r) : Sexp × Rd) => s!"{sexpStr v} rest={restStr r}") (readList ⟨b, none⟩)
   | ["sexpitem", h] => (unhx h).map fun b =>
       runStr (fun ((v, r) : Sexp × Rd) => s!"{sexpStr v} rest={restStr r}")
-        (liftRun (readListItem (fuelFor b.length) ⟨b, none⟩))
+        (readListItem ⟨b, none⟩)
   | ["sexpstr", h] => (unhx h).map fun b =>
       let (v, r) := readString ⟨b, none⟩; s!"{sexpStr v} rest={restStr r}"
   | ["sexpsym", h] => (unhx h).map fun b =>
